@@ -125,6 +125,19 @@ def run(ctx):
     for sp in soft:
         sp['opts']['soft_first'] = True
     specs += soft
+    # rolling horizon: the same book was set up on the previous / next window of the same length before
+    roll = gen.gen_many(ctx.seed, n // 3, dict(CFG, tzs=[None], kinds={'OrderBook': 4, 'SimpleContract': 2, 'Storage': 1}), 'c20roll_')
+    for k_, sp in enumerate(roll):
+        sp['opts']['warmup_shift'] = 1 if k_ % 2 else -1
+    specs += roll
+    # capacities written as whole numbers (int), prices and durations with fractions
+    ints = gen.gen_many(ctx.seed, n // 3, dict(CFG, freqs=['h', '30min', '15min'], kinds={'OrderBook': 4, 'SimpleContract': 2, 'Storage': 1}), 'c20int_')
+    for sp in ints:
+        for a in sp['assets']:
+            if a['kind'] == 'OrderBook':
+                a['orders']['capa'] = [int(v) if abs(v) >= 1 else (1 if v > 0 else -1) for v in a['orders']['capa']]
+                a['orders']['price'] = [v + 0.3 for v in a['orders']['price']]
+    specs += ints
     specs = ctx.specs(specs)
     res = C.run_impl('reference', specs)
     parts = C.run_impl('assets', specs)
